@@ -1,5 +1,143 @@
 package main
 
+// Native replay: the witness values are fed to the same harness source compiled into the real package
+// (go test -overlay); a violation is reported only if the native run fails the same way.
+
+import (
+	"context"
+	"encoding/json"
+	"fmt"
+	"os"
+	"os/exec"
+	"path/filepath"
+	"strings"
+	"time"
+)
+
+const replayTestSrc = `//go:build verif
+
+package PKGNAME
+
+import (
+	"fmt"
+	"os"
+	"testing"
+)
+
+func TestVerifReplay(t *testing.T) {
+	name := os.Getenv("VERIF_HARNESS")
+	f := vHarness[name]
+	if f == nil {
+		fmt.Println("VERIF-NOHARNESS", name)
+		return
+	}
+	defer func() {
+		r := recover()
+		if _, ok := r.(vAssumeFailed); ok {
+			fmt.Println("VERIF-ASSUME-FAILED")
+			return
+		}
+		if len(vDiverge) > 0 {
+			fmt.Println("VERIF-DIVERGED:", vDiverge)
+		}
+		if r != nil {
+			fmt.Printf("VERIF-PANIC: %v\n", r)
+		}
+		if r != nil || len(vFailed) > 0 {
+			fmt.Println("VERIF-REPRODUCED")
+		} else {
+			fmt.Println("VERIF-NOT-REPRODUCED")
+		}
+	}()
+	f()
+}
+`
+
 func replayNative(ps *PropertySpec, v *Violation, wpath string, results []*HarnessResult) string {
-	return "not-replayed"
+	var spec *HarnessSpec
+	for _, hr := range results {
+		if hr.Spec.Fn == v.Harness {
+			s := hr.Spec
+			spec = &s
+		}
+	}
+	if spec == nil {
+		return "replay-unsupported"
+	}
+	if spec.Replay == "none" {
+		return "replay-unsupported"
+	}
+	dir := filepath.Dir(wpath)
+	base := strings.TrimSuffix(filepath.Base(wpath), ".witness.json")
+	// witness in the format the native API reads
+	params := map[string]int{}
+	for k, val := range spec.Params {
+		params[k] = val
+	}
+	if os.Getenv("VERIF_TIER_ACTIVE") == "thorough" {
+		for k, val := range spec.Thorough {
+			params[k] = val
+		}
+	}
+	nat := map[string]interface{}{"harness": v.Harness, "nd": v.ND, "params": params}
+	natPath := filepath.Join(dir, base+".replay.json")
+	if err := writeJSON(natPath, nat); err != nil {
+		return "replay-error"
+	}
+	ov, err := overlayFor([]string{spec.Pkg}, true)
+	if err != nil {
+		return "replay-error"
+	}
+	repl := map[string]string{}
+	pkgName := ""
+	i := 0
+	for virt, src := range ov {
+		real := filepath.Join(dir, fmt.Sprintf("%s.ov%d.go", base, i))
+		i++
+		os.WriteFile(real, src, 0o644)
+		repl[virt] = real
+		if strings.HasSuffix(virt, "zz_verif_api.go") {
+			for _, ln := range strings.Split(string(src), "\n") {
+				if strings.HasPrefix(ln, "package ") {
+					pkgName = strings.TrimSpace(strings.TrimPrefix(ln, "package "))
+				}
+			}
+		}
+	}
+	testReal := filepath.Join(dir, base+".replay_test.go")
+	os.WriteFile(testReal, []byte(strings.ReplaceAll(replayTestSrc, "PKGNAME", pkgName)), 0o644)
+	repl[filepath.Join(repoDir(), spec.Pkg, "zz_verif_replay_test.go")] = testReal
+	ovPath := filepath.Join(dir, base+".overlay.json")
+	b, _ := json.Marshal(map[string]interface{}{"Replace": repl})
+	os.WriteFile(ovPath, b, 0o644)
+
+	ctx, cancel := context.WithTimeout(context.Background(), 240*time.Second)
+	defer cancel()
+	cmd := exec.CommandContext(ctx, "go", "test", "-tags", "verif", "-vet=off", "-count=1", "-overlay", ovPath, "-run", "^TestVerifReplay$", "-v", "./"+spec.Pkg)
+	cmd.Dir = repoDir()
+	cmd.Env = append(os.Environ(), "GOFLAGS=", "GOPROXY=off", "GOSUMDB=off", "GOTOOLCHAIN=local", "VERIF_WITNESS="+natPath, "VERIF_HARNESS="+v.Harness)
+	out, _ := cmd.CombinedOutput()
+	os.WriteFile(filepath.Join(dir, base+".replay.log"), out, 0o644)
+	s := string(out)
+	// command line to repeat the replay by hand
+	os.WriteFile(filepath.Join(dir, base+".replay.sh"), []byte(fmt.Sprintf("#!/bin/sh\ncd %s && VERIF_WITNESS=%s VERIF_HARNESS=%s GOFLAGS= go1.26.8 test -tags verif -vet=off -count=1 -overlay %s -run '^TestVerifReplay$' -v ./%s\n",
+		repoDir(), natPath, v.Harness, ovPath, spec.Pkg)), 0o755)
+	switch {
+	case strings.Contains(s, "VERIF-ASSUME-FAILED"):
+		return "replay-assume-failed"
+	case strings.Contains(s, "VERIF-REPRODUCED"):
+		if v.Kind == "panic" && !strings.Contains(s, "VERIF-PANIC") {
+			return "replay-different-failure"
+		}
+		if v.Kind == "assert" && !strings.Contains(s, "VERIF-ASSERT-FAILED") && !strings.Contains(s, "VERIF-PANIC") {
+			return "replay-different-failure"
+		}
+		return "reproduced"
+	case strings.Contains(s, "VERIF-NOT-REPRODUCED"):
+		return "not-reproduced"
+	case strings.Contains(s, "panic:") || strings.Contains(s, "fatal error:"):
+		// crashed outside the deferred handler (e.g. in another goroutine)
+		return "reproduced"
+	}
+	return "replay-error"
 }
